@@ -253,6 +253,40 @@ def check_mixture(env, label, settings, tier="quick"):
                                    note="distribution = mixture over per-photon emission outcomes of the convolution of independent group distributions; total 1")
 
 
+            # a Sampler that was used before with another circuit of the same input size (other herald photons / herald modes / unitary), or another
+            # input, and is then given this configuration reports this configuration's mixture (source statistics are not carried over)
+            if tier == "thorough" or inputs.index(s) < 3:
+                src = emulator.Source(brightness=nu, purity=pur, indistinguishability=ind)
+                for olabel, other, first_in in earlier_configurations(env, clabel, circ, s, m):
+                    sam = emulator.Sampler(other, lw.State(first_in), source=src)
+                    sam.probability_distribution    # noqa: B018
+                    sam.circuit = circ
+                    sam.input_state = lw.State(s)
+                    got = {tuple(k.s): v for k, v in sam.probability_distribution.items()}
+                    vals = [((tuple(s), o, olabel), got.get(o, env.const(0)) - p_) for o, p_ in ref.items()]
+                    vals += [((tuple(s), o, olabel, "extra"), v) for o, v in got.items() if o not in ref]
+                    env.check_all_zero(f"{name}.mixture-after-reuse[{clabel};in={s};{settings};{olabel}]", vals,
+                                       note="a re-used Sampler (earlier circuit with other heralds / earlier input) gives the mixture of its current configuration")
+
+
+def earlier_configurations(env, clabel, circ, s, m):
+    """(label, circuit, input) that a long-lived Sampler saw before: same number of input modes"""
+    import lightworks as lw
+    if circ.heralds["input"]:
+        a = lw.Unitary(block_unitary(env, 3, 5))
+        a.herald(0, 0, 2)                       # same herald modes, no herald photon
+        yield "herald-photons-changed", a, s
+        b = lw.Unitary(block_unitary(env, 3, 5))
+        b.herald(1, 2, 0)                       # herald photon enters on another mode
+        yield "herald-mode-changed", b, s
+    else:
+        other_in = list(reversed(s)) if list(reversed(s)) != list(s) else [1] + [0] * (m - 1)
+        yield "input-changed", circ, other_in
+        h = lw.Unitary(block_unitary(env, m + 1, 4))
+        h.herald(1, m, m)
+        yield "was-heralded", h, s
+
+
 SETTINGS = [(F(3, 4), F(1), F(1)), (F(1), F(1), F(4, 9)), (F(1), F(1), F(0)), (F(1), F(9, 10), F(1)), (F(4, 5), F(9, 10), F(1, 4)), (F(1, 2), F(3, 4), F(0))]
 
 
